@@ -68,7 +68,12 @@ func (b *Builder) AddLink(requestID graphsync.RequestID, link ipld.Link, linkAct
 // as well as whether the graphsync request responded with complete or partial
 // data.
 func (b *Builder) AddResponseCode(requestID graphsync.RequestID, status graphsync.ResponseStatusCode) {
-	b.completedResponses[requestID] = status
+	// a message carries one status per request: an informational status queued after the request's
+	// final status (e.g. an update sent while the final message is still waiting to go out) must
+	// not replace it, or the request never terminates on either side
+	if existing, ok := b.completedResponses[requestID]; !ok || !existing.IsTerminal() || status.IsTerminal() {
+		b.completedResponses[requestID] = status
+	}
 	// make sure this completion goes out in next response even if no links are sent
 	_, ok := b.outgoingResponses[requestID]
 	if !ok {
